@@ -61,8 +61,10 @@ static const char *STRV[] = { "JWT", "none", "HS256", "at+jwt", "", "\xc3\xa9", 
 #define NSTRV 25
 static const char *JSONV[] = { "{\"a\":1}", "[1,2]", "{}", "[\"HS256\"]", "{\"alg\":\"none\"}",
 	/* reals that need all 17 significant digits, integers beyond 2^53, exponents */
-	"{\"r\":0.30000000000000004,\"t\":0.1}", "[9007199254740993,9007199254740992.0,1e15,1000000000000000.5]", "{\"pi\":3.141592653589793,\"third\":0.3333333333333333,\"tiny\":5e-324,\"big\":1.7976931348623157e308}" };
-#define NJSONV 8
+	"{\"r\":0.30000000000000004,\"t\":0.1}", "[9007199254740993,9007199254740992.0,1e15,1000000000000000.5]", "{\"pi\":3.141592653589793,\"third\":0.3333333333333333,\"tiny\":5e-324,\"big\":1.7976931348623157e308}",
+	/* values the builder refuses (truncated, scalar, empty, trailing text): a refused set changes nothing, also when it was to replace */
+	"{\"a\":", "[1,2", "", "[1,2] x" };
+#define NJSONV 12
 static const long INTV[] = { 0, 1, -1, 1700000000L, INT64_MAX, INT64_MIN, 256 };
 
 static void put_value_text(int type, const char *sval, long ival)
